@@ -765,7 +765,9 @@ fn run10(c: &Case10) -> Vec<(String, String)> {
         rb = rb
             .header("Authorization", "Bearer caller-token")
             .header_append("X-Custom", "one")
-            .header_append("X-Custom", "two");
+            .header_append("X-Custom", "two")
+            // a value of obs-text bytes that are not UTF-8: carried byte for byte on every hop
+            .header("X-Obs", http::HeaderValue::from_bytes(b"caf\xe9 \xff\x80").unwrap());
         if use_proxy {
             rb = rb.proxy_settings(
                 attohttpc::ProxySettings::builder()
@@ -873,8 +875,9 @@ fn run10(c: &Case10) -> Vec<(String, String)> {
         // caller headers on every hop
         let custom: Vec<&[u8]> = req.header_all("x-custom");
         let auth = req.header_all("authorization");
-        if custom != vec![&b"one"[..], &b"two"[..]] || auth != vec![&b"Bearer caller-token"[..]] {
-            v.push(("hop-caller-headers".into(), format!("{desc}: hop {i} lost or changed caller headers (X-Custom x{}, Authorization x{})", custom.len(), auth.len())));
+        let obs = req.header_all("x-obs");
+        if custom != vec![&b"one"[..], &b"two"[..]] || auth != vec![&b"Bearer caller-token"[..]] || obs != vec![&b"caf\xe9 \xff\x80"[..]] {
+            v.push(("hop-caller-headers".into(), format!("{desc}: hop {i} lost or changed caller headers (X-Custom x{}, Authorization x{}, X-Obs {:?})", custom.len(), auth.len(), obs.iter().map(|x| esc(x)).collect::<Vec<_>>())));
         }
         // framing matches the body written (parse_single_request enforced it); 307/308: same method+body
         match &first {
